@@ -7,7 +7,7 @@ cd "$(dirname "$0")/.."
 JOBS=${1:-6}
 OUT=$(mktemp -d /tmp/refcorpus-XXXXXX)
 trap 'rm -rf "$OUT"' EXIT
-ls -d refactors/*/ | xargs -P "$JOBS" -I{} sh -c 'n=$(basename {}); tools/try_mutant.sh {}patch.diff > '"$OUT"'/$n.txt 2>&1'
+ls -d refactors/*/ | while read d; do [ -f "${d}patch.diff" ] && echo "$d"; done | xargs -P "$JOBS" -I{} sh -c 'n=$(basename {}); tools/try_mutant.sh {}patch.diff > '"$OUT"'/$n.txt 2>&1'
 bad=0
 for f in "$OUT"/*.txt; do
   n=$(basename "$f" .txt)
